@@ -20,6 +20,7 @@ impl DbDocument for Task {
         map.insert("prev".to_string(), json!(self.prev.clone()));
         map.insert("state".to_string(), json!(self.state.clone()));
         map.insert("data".to_string(), json!(self.data.clone()));
+        map.insert("err".to_string(), json!(self.err.clone()));
         map.insert("start_time".to_string(), json!(self.start_time));
         map.insert("end_time".to_string(), json!(self.end_time));
         map.insert("hooks".to_string(), json!(self.hooks.clone()));
